@@ -100,8 +100,10 @@ Fixpoint linsert (x : list string) (l : list (list string)) : list (list string)
   end.
 Definition lset (l : list (list string)) : list (list string) := fold_right linsert [] l.
 
-(** rooted topology = its set of clades; unrooted topology = its set of bipartitions, each
-    written as the side that does not contain the least tip name *)
+(** rooted topology = its set of clades (the clade of all tips, which only the planted
+    representation has a branch for, left out); unrooted topology = its set of bipartitions,
+    each written as the side that does not contain the least tip name *)
 Definition topo_key (rooted : bool) (t : utree) : list (list string) :=
-  if rooted then lset (clades t)
-  else let all := tipset t in lset (map (canon_side all) (clades t)).
+  let all := tipset t in
+  if rooted then lset (filter (fun s => negb (sset_eqb s all)) (clades t))
+  else lset (map (canon_side all) (clades t)).
